@@ -44,7 +44,7 @@ def run(tier, seed, replay=None):
     BASE.clear()
     return interpcheck.run_interp_check(
         "C20", "c20", ("result",), {"quick": 1, "thorough": 100000}, tier, seed,
-        rule="complete product of 62 operation templates (every unary/binary operator, index, slice, len, in, call, spread into "
+        rule="complete product of 88 operation templates (every unary/binary operator with the operand on either side, ordering and equality against the float64-indistinguishable neighbours of +-(2^53+1), index, slice, len, in, call, spread into "
              "fixed/variadic/Go functions, member, map key, for-in, switch subject and case, conditions, ternary, ??, throw, "
              "assignment targets, delete, defer, var, multi-assignment, return list, Go call arguments, string conversion, ordering against neighbours of 2^53, == / != against the same value, deref) x 15 "
              "operand values (int, 0, float, string, numeral string, bool, nil, slice, empty slice, map, function, nested slice, +-(2^53+1), pointer) "
